@@ -131,6 +131,16 @@ class CFG(object):
       e = self._block(s.orelse, f) if s.orelse else f
       self._link(e, after)
       return [after]
+    if isinstance(s, ast.For) and isinstance(s.iter, (ast.Tuple, ast.List)) and len(s.iter.elts) == 1 and isinstance(s.iter.elts[0], ast.Constant) \
+       and isinstance(s.target, ast.Name) and not s.orelse:
+      # a loop over a literal one-element sequence (the normaliser's rendering of an inlined helper's early returns): the body runs
+      # exactly once, `break` / `continue` / falling off the end all lead behind it - no loop head, no back edge
+      after = self._new('join', None, 'after-once', s)
+      self._loops.append((after, after, len(self._finals)))
+      b = self._block(s.body, preds)
+      self._loops.pop()
+      self._link(b, after)
+      return [after]
     if isinstance(s, (ast.For, ast.AsyncFor)):
       it = self._new('stmt', s.iter, 'for-iter', s); self._link(preds, it); self._mayraise(it, preds)
       head = self._new('for', s, 'loop-head', s); self._edge(it, head)
